@@ -51,10 +51,20 @@ strictly increasing code-point order of their keys -/
 theorem keys_sorted (v : J) (h : DistinctKeys v) : KeysSorted (norm v) := norm_keysSorted v h
 
 /-- The line iteration and the text agree: joining the lines of `_gen_ch_lines` with line feeds is
-the plain text (no line is lost at the end, no empty line appears). -/
+the plain text (no line is lost at the end, no empty line appears). `groupLines` is a function of
+the chunk list: the lines are values, so the statement covers every order in which a caller
+collects, keeps and renders them (the driver answers all of those requests with this one
+function and is compared with the real object consumed in each of those ways). -/
 theorem lines (c : Consts) (L : Limits) (v : J) (off : Nat) :
     joinLines (groupLines (gen c L v off)) = text (gen c L v off) :=
   joinLines_groupLines_gen c L v off
+
+/-- Each line owns its chunks: the lines closed by a new-line marker are exactly the lines of the
+chunks before the marker and are not changed by anything generated afterwards; the rest of the
+chunk list only appends further lines. -/
+theorem lines_own_chunks (a b : List (Option Chunk)) :
+    groupLines (a ++ none :: b) = groupLines (a ++ [none]) ++ groupLines b :=
+  groupLinesGo_split [] a b
 
 /-- … so the text rebuilt from the line iteration reads back as the value too -/
 theorem read_lines (L : Limits) (v : J) (off : Nat) (h : WF v) :
